@@ -126,8 +126,83 @@ const (
 	encNegR     // R without its required zero pad (only when R's high bit is set), else canonical
 	encBadEquation
 	encEmpty
+	encLaxShape // any of the other shapes the pre-BIP66 (lax) parser accepts: see laxShape
 	encCount
 )
+
+// laxShape re-encodes a valid (r, s) in one of the forms that only the lenient pre-BIP66 parser accepts (Bitcoin
+// Core's ecdsa_signature_parse_der_lax): the sequence length is never interpreted, integer lengths may be in the long
+// form with leading zero length bytes (at most three significant ones), integers are unsigned with any number of leading
+// zero bytes, and whatever follows S is ignored. A few forms just outside that grammar are produced as well (four
+// significant length bytes, an integer running past the end), which must fail the signature check.
+func laxShape(r *mon.Rand, rr, ss *big.Int) []byte {
+	integer := func(v *big.Int) []byte {
+		b := v.Bytes()
+		switch r.Intn(5) {
+		case 0: // minimal DER
+			b = derInt(v)
+		case 1: // unsigned, no pad even when the top bit is set
+		case 2: // many leading zeroes
+			b = append(make([]byte, 1+r.Intn(40)), b...)
+		case 3:
+			b = derInt(v)
+		default:
+			b = append([]byte{0}, b...)
+		}
+		var l []byte
+		switch n := len(b); r.Intn(8) {
+		case 0:
+			l = []byte{0x81, byte(n)}
+		case 1:
+			l = []byte{0x82, 0x00, byte(n)}
+		case 2:
+			l = []byte{0x83, 0x00, 0x00, byte(n)}
+		case 3: // more than three length bytes, all but the last zero
+			l = append(append([]byte{byte(0x80 + 5 + r.Intn(3))}, make([]byte, 4+r.Intn(3))...), byte(n))
+			l[0] = byte(0x80 + len(l) - 1)
+		default:
+			l = []byte{byte(n)}
+		}
+		return append(append([]byte{0x02}, l...), b...)
+	}
+	body := append(integer(rr), integer(ss)...)
+	if r.Chance(1, 3) { // bytes after S
+		body = append(body, r.Bytes(1+r.Intn(6))...)
+	}
+	var seq []byte
+	switch r.Intn(6) {
+	case 0: // correct short or long form
+		if len(body) < 0x80 {
+			seq = []byte{byte(len(body))}
+		} else {
+			seq = []byte{0x81, byte(len(body))}
+		}
+	case 1: // short form, any value
+		seq = []byte{byte(r.Intn(0x80))}
+	case 2: // long form, length bytes are skipped unread
+		n := 1 + r.Intn(4)
+		seq = append([]byte{byte(0x80 + n)}, r.Bytes(n)...)
+	case 3:
+		seq = []byte{0x81, byte(len(body))}
+	case 4: // 0x80: long form with zero length bytes
+		seq = []byte{0x80}
+	default:
+		seq = []byte{byte(len(body) & 0x7f)}
+	}
+	out := append(append([]byte{0x30}, seq...), body...)
+	// just outside the grammar
+	switch r.Intn(12) {
+	case 0: // four significant length bytes for R
+		rb := rr.Bytes()
+		bad := append([]byte{0x30, byte(r.Intn(0x80)), 0x02, 0x84, 0x01, 0x00, 0x00, byte(len(rb))}, rb...)
+		return append(bad, integer(ss)...)
+	case 1: // S runs one byte past the end
+		return out[:len(out)-1-len(out)%2]
+	case 2: // sequence long form claims more length bytes than there are bytes
+		return []byte{0x30, 0x80 + 0x7f, 0x02, 0x01, 0x01, 0x02, 0x01, 0x01}
+	}
+	return out
+}
 
 func encodeECDSA(r *mon.Rand, rr, ss *big.Int, mode int) []byte {
 	switch mode {
@@ -167,6 +242,8 @@ func encodeECDSA(r *mon.Rand, rr, ss *big.Int, mode int) []byte {
 		return d
 	case encEmpty:
 		return nil
+	case encLaxShape:
+		return laxShape(r, rr, ss)
 	}
 	return derEncode(rr, ss)
 }
